@@ -9,7 +9,9 @@ import (
 	"math/rand"
 	"os"
 	"path/filepath"
+	"regexp"
 	"sort"
+	"strings"
 
 	"github.com/open2b/scriggo"
 	"verifharness/drv"
@@ -20,9 +22,25 @@ type c21Case struct {
 	Kind  string           `json:"kind"` // "program" | "template"
 	Entry string           `json:"entry"`
 	Files map[string][]int `json:"files"`
+	Src   []int            `json:"src"`
+}
+
+var quotedRe = regexp.MustCompile("(\"[^\"]*\"|'[^']*'|[0-9]+)")
+
+// msgClass abstracts a message to its first words without literals (identity of a finding).
+func msgClass(m string) string {
+	m = quotedRe.ReplaceAllString(m, "_")
+	w := strings.Fields(m)
+	if len(w) > 3 {
+		w = w[:3]
+	}
+	return strings.Join(w, " ")
 }
 
 func run(c c21Case) []any {
+	if c.Files == nil {
+		c.Files = map[string][]int{c.Entry: c.Src}
+	}
 	files := scriggo.Files{}
 	for n, b := range c.Files {
 		files[n] = drv.BytesOf(b)
@@ -42,7 +60,7 @@ func run(c c21Case) []any {
 		}
 	}()
 	rec := map[string]any{"id": c.ID, "kind": c.Kind, "entry": c.Entry, "files": c.Files, "outcome": outcome,
-		"path": "", "line": 0, "column": 0, "start": 0, "end": 0, "msg": "", "known": false, "file": []int{}}
+		"path": "", "line": 0, "column": 0, "start": 0, "end": 0, "msg": "", "msgclass": "", "known": false, "file": []int{}}
 	if outcome == "ok" && err != nil {
 		var be *scriggo.BuildError
 		if errors.As(err, &be) {
@@ -54,6 +72,7 @@ func run(c c21Case) []any {
 				m = m[:120]
 			}
 			rec["msg"] = m
+			rec["msgclass"] = msgClass(be.Message())
 			if f, ok := c.Files[be.Path()]; ok {
 				rec["known"] = true
 				rec["file"] = f
@@ -75,6 +94,8 @@ func main() {
 		Extra: corpus,
 	})
 }
+
+var hugeLiteral = regexp.MustCompile(`[0-9]{7,}`)
 
 // corpus derives seeded failing sources from the repository corpus (mutations that usually break
 // the syntax or the typing somewhere in the middle of a realistic file).
@@ -105,7 +126,8 @@ func corpus(seed int64, n int) []json.RawMessage {
 	for i := 0; i < n; i++ {
 		p := files[r.Intn(len(files))]
 		b, err := os.ReadFile(p)
-		if err != nil || len(b) == 0 {
+		if err != nil || len(b) == 0 || hugeLiteral.Match(b) {
+			// (sources declaring huge arrays make the compiler allocate gigabytes: a C04 finding, not wanted here)
 			continue
 		}
 		k := 1 + r.Intn(2)
